@@ -62,6 +62,14 @@ Proof.
   unfold same_record, same_data. intro H. eapply forallb_incl; [|exact H]. intros x _. apply all_rfields_complete.
 Qed.
 
+(* the two scheduling decisions read from cache.cpp (SrcDecisions.v), in the form the proofs below are written in *)
+Lemma rearm_match (cn : option Z) t0 now :
+  match cn with None => cache_rearm true t0 0 now | Some n => cache_rearm false t0 n now end =
+  match cn with Some n => t0 <? n | None => true end.
+Proof. destruct cn; reflexivity. Qed.
+Lemma trigger_passed_spec t now : cache_trigger_passed t now = (t <=? now).
+Proof. reflexivity. Qed.
+
 (* ------------------------------------------------------------------ the scan loop of addRecord *)
 Definition matches (r : record) (e : entry) : bool := spec_match r (e_rec e).
 
@@ -246,7 +254,7 @@ Proof. intro H. apply StronglySorted_inv in H as [H1 H2]. split; [exact H1|]. re
 
 Lemma drop_passed_above d tr : (forall x, In x tr -> d < x) -> drop_passed d tr = (false, tr).
 Proof.
-  destruct tr as [|a tr]; cbn; [reflexivity|]. intro H.
+  destruct tr as [|a tr]; cbn; [reflexivity|]. intro H. unfold cache_trigger_passed.
   destruct (a <=? d) eqn:E; [|reflexivity]. specialize (H a (or_introl eq_refl)). lia.
 Qed.
 
@@ -257,7 +265,7 @@ Lemma drop_passed_exact d tr :
                      | [] => (false, [])
                      end.
 Proof.
-  destruct tr as [|a tr]; [reflexivity|]. intros Hs Hl. cbn [drop_passed].
+  destruct tr as [|a tr]; [reflexivity|]. intros Hs Hl. cbn [drop_passed]. unfold cache_trigger_passed.
   apply sorted_tail in Hs as [_ Hgt]. pose proof (Hl a (or_introl eq_refl)) as Ha.
   destruct (a =? d) eqn:E.
   - assert (a = d) by lia. subst a. replace (d <=? d) with true by lia.
@@ -735,7 +743,7 @@ Lemma add_preserves_GInv now j r c :
 Proof.
   intros G Httl Hj. pose proof (add_preserves_EInv now j r c (g_einv _ _ G)) as HE.
   destruct G as [Hei Hwf Htm Hnx].
-  unfold add in *. pose proof (scan_entries r [] (c_entries c)) as HK.
+  unfold add in *. rewrite rearm_match in *. pose proof (scan_entries r [] (c_entries c)) as HK.
   destruct (scan r [] (c_entries c)) as [kept0 sg]. cbn [fst app] in HK. subst kept0.
   set (kept := filter (fun e => negb (matches r e)) (c_entries c)) in *.
   assert (Hk : forall e, In e kept -> In e (c_entries c)) by (intros e He; apply filter_In in He; tauto).
